@@ -43,6 +43,12 @@ CHECKS = {
         "CrossHair's 'Confirmed over all paths' = exhaustive within the bound. Membership vs an independent recogniser; trees validated and must spell the input.",
    note="Trusted: recogniser + tree validator in the harness; alphabet abstraction (parser compares characters by == only). [decoder] use of the engine: after the input is realised the parser runs natively. Outside: longer strings, other grammars.",
    design="§3 C10"),
+ "C16": dict(level="other", technique="CrossHair (z3): symbolic trie-key codec with unbounded child indices; solver-driven exhaustive enumeration of bounded trees, every tree operation checked against an independent traversal",
+   text=BOUNDED + "(1) path_to_trie_key/trie_key_to_path on symbolic paths (length <= 3/5, unbounded indices): round trip, prefix preservation, alphabet. "
+        "(2) every (open or closed) tree decodable from <= 6/8 symbolic choices, every replace_path/substitute/expand_one_step on it (pairs of operations for smaller trees), "
+        "a node with 27 and with 40 children: string, openness flags, paths/get_subtree/find_node/trie/sub-tries, structural equality vs hash, locality of replace_path.",
+   note="Trusted: reference traversal in the harness. [decoder] for (2). Outside: larger trees, longer sequences, k_paths caches. Known finding: trie alphabet (children >= 28).",
+   design="§3 C16"),
 }
 NOT_APPLICABLE = {
  "C21": "needs end-to-end solve() on the shipped formalizations plus external validators (docutils, XML parser): the solver loop is a heap algorithm around Z3 calls that no engine here can encode, and the validators are not solver objects",
